@@ -315,7 +315,10 @@ def traverse(prs, rnd, passes=("basic",)):
         for ph in _r(kind + ".placeholders", lambda: list(obj.placeholders)) or []:
             _r("placeholder.placeholder_format.type", lambda: ph.placeholder_format.type)
             n += 1
+        # obtaining the background object is documented as safe (only its .fill creates): slide, layout and master alike
+        _r(kind + ".background", lambda: obj.background)
         if kind == "slide":
+            _r("Slide.follow_master_background:before", lambda: obj.follow_master_background)
             _r("Slide.slide_id", lambda: obj.slide_id)
             _r("Slide.slide_layout", lambda: obj.slide_layout.name)
             _r("Slide.has_notes_slide", lambda: obj.has_notes_slide)
@@ -392,6 +395,27 @@ def partial_xfrms(prs, rnd):
             if len(kids) == 2:
                 xf.remove(rnd.choice(kids))
                 n += 1
+    return n
+
+
+def foreign_guides(prs, rnd):
+    """Pre-state: preset shapes whose a:avLst carries a guide the preset does not define (left over from a change of preset, or
+    written by another producer: any number of a:gd is schema-valid there).  Reading shape.adjustments must leave them alone."""
+    from lxml import etree
+
+    A = "http://schemas.openxmlformats.org/drawingml/2006/main"
+    n = 0
+    for s in prs.slides:
+        for geom in s._element.xpath(".//p:sp/p:spPr/a:prstGeom"):
+            if rnd.random() < 0.4:
+                continue
+            av = geom.find("{%s}avLst" % A)
+            if av is None:
+                av = etree.SubElement(geom, "{%s}avLst" % A)
+            gd = etree.SubElement(av, "{%s}gd" % A)
+            gd.set("name", rnd.choice(["hf", "adj", "adj9", "vf"]))
+            gd.set("fmla", "val %d" % rnd.choice([0, 25000, 50000]))
+            n += 1
     return n
 
 
@@ -965,6 +989,8 @@ def run_unit(unit, tier, seed, acc):
                         rn_.hyperlink.address = "http://to-be-blanked.example/%d" % i
                     if i % 4 == 2 and len(run.prs.slides):  # a notes slide with text, so that the stripped-reference pre-state applies
                         run.prs.slides[0].notes_slide.notes_text_frame.text = "notes of generated deck %d" % i
+                    if i % 5 == 2 and foreign_guides(run.prs, env.rng("C12g", seed, i)):
+                        acc.count("generated_decks_with_foreign_adjustment_guides")
                     if i % 4 == 3 and partial_xfrms(run.prs, env.rng("C12x", seed, i)):
                         acc.count("generated_decks_with_half_transforms")
                     if (i % 5 == 4 or i % 4 == 1) and not any(True for _ in _charts(run.prs)):
